@@ -21,6 +21,11 @@ pub(crate) mod verif_stubs {
     }
     // over-approximation of UTF-8 validation for panic-freedom harnesses: validity is
     // non-deterministic (the error value comes from validating one concrete invalid byte)
+    // for round trips of strings that are valid UTF-8 by construction (built from `char`s): validation
+    // is skipped (T2: std accepts valid UTF-8)
+    pub fn stub_from_utf8_valid(v: &[u8]) -> Result<&str, core::str::Utf8Error> {
+        Ok(unsafe { core::str::from_utf8_unchecked(v) })
+    }
     pub fn stub_from_utf8(v: &[u8]) -> Result<&str, core::str::Utf8Error> {
         if kani::any() {
             Ok(unsafe { core::str::from_utf8_unchecked(v) })
